@@ -145,10 +145,32 @@ def _gen_multi(rng, i, pattern=None):
   return s
 
 
+def _close_family(rng, thorough):
+  """The owner closes the client exactly while a reconnect attempt is in flight (slow refusal, silent
+  handshake, refused 20 ms later), after 1..3 failed attempts, then time passes and the endpoint comes back."""
+  out = []
+  for kind in ('thrift', 'mux'):
+    for level in ('chain', 'full'):
+      for dm in ('refuse3s', 'refuse20') + (('silent',) if kind == 'mux' else ()):
+        for nfail in ((1, 2, 3) if thorough else (1, 2)):
+          for q in ((0, 1, 3) if thorough else (0, 2)):
+            initial, mx, exp = rng.choice(CONFIGS)
+            # the endpoint first refuses at once (the outage becomes known, requests fail fast, nothing is left
+            # in flight); from then on connects take their time to fail
+            st = [['traffic', 1000, 500], ['reach', 0], ['traffic', 1000, 500], ['adv', 100], ['mode', dm]]
+            for _ in range(nfail - 1):
+              st.append(['adv', int(mx * 1000) + 6000])
+            st += [['close_in_attempt', int(mx * 1000) + 6000, q], ['adv', 1000], ['reach', 1], ['adv', 200000]]
+            out.append({'kind': kind, 'level': level, 'initial': initial, 'max': mx, 'exp': exp, 'rseed': rng.randint(0, 10 ** 6),
+                        'down_mode': 'refuse', 'start_up': True, 'steps': st})
+  return out
+
+
 def cases(prop, tier, seed):
   rng = random.Random(15485863 * int(seed) + 3)
   n = 400 if tier == 'quick' else 8000
   out = [_gen(rng, i) for i in range(n)]
+  out += _close_family(random.Random(int(seed) + 11), tier != 'quick')
   pats = _multi_systematic()
   if tier == 'quick':
     rng2 = random.Random(7 * int(seed) + 1)
@@ -157,6 +179,17 @@ def cases(prop, tier, seed):
   if tier != 'quick':
     out += [_gen_multi(rng, i + 1 + int(seed), pat) for i, pat in enumerate(pats)]
   out += [_gen_multi(rng, i) for i in range(20 if tier == 'quick' else 600)]
+  # a member that is down (all its connections reset, or one reset and the others silent with calls still
+  # outstanding on them) leaves the server set; later the client is closed: nothing dials it any more
+  rng3 = random.Random(13 * int(seed) + 5)
+  for i in range(16 if tier == 'quick' else 200):
+    sc = _gen_multi(rng3, i, (rng3.choice([2, 3]), [0], [0]))
+    sp = sc['steps'][0][2]
+    e = sc['focus'] = 0
+    sc['steps'] = [['traffic', 2000, sp], ['reach', 0, e, rng3.choice(['uneven', 'uneven', 'even']), rng3.choice([0, 1, 2, 3])],
+                   ['traffic', rng3.choice([100, 300, 600, 1500]), rng3.choice([100, sp])], ['leave', e],
+                   ['traffic', rng3.choice([0, 1000, 5000]), sp], ['close'], ['adv', 200000]]
+    out.append(sc)
   return out
 
 
@@ -194,6 +227,7 @@ def run_case(script):
   down_mode = script['down_mode']
 
   def on_connect_start(conn):
+    down_mode = env.get('down_mode', script['down_mode'])
     if env['up']:
       conn.connect_plan = ('ok', 0.01)
     elif down_mode == 'silent':
@@ -201,6 +235,8 @@ def run_case(script):
       conn.user['silent'] = True
     elif down_mode == 'refuse20':
       conn.connect_plan = ('refuse', 0.02)
+    elif down_mode == 'refuse3s':
+      conn.connect_plan = ('refuse', 3.0)     # a connect that takes its time to fail (no answer to the SYN)
     else:
       conn.connect_plan = ('refuse', 0.0)
   net.on_connect_start = on_connect_start
@@ -439,8 +475,20 @@ def run_case(script):
         loop.settle()
       # steady traffic is only guaranteed since `began`: assert relative to max(tau, began)
       ev.append({'e': 'Recover', 'tau': max(tau, began), 't': ms()})
-    elif k == 'close':
+    elif k == 'mode':
+      env['down_mode'] = op[1]      # how the unreachable endpoint treats connects from now on
+    elif k == 'close' or k == 'close_in_attempt':
       if not env['closed']:
+        if k == 'close_in_attempt':
+          # run until a reconnect attempt is in flight (at most op[1] ms), then op[2] more quanta, then close
+          t_end = ms() + op[1]
+          while ms() < t_end and not any(env['attempt_open'].values()):
+            nxt = loop.next_timer_at()
+            if nxt is None:
+              break
+            loop.run_until(min(nxt, EPOCH + t_end / 1000.0))
+          if op[2]:
+            loop.step(op[2])
         env['closed'] = True
         close_client()
         loop.run_until_idle()
@@ -489,6 +537,13 @@ def run_case_multi(script):
     else:
       conn.connect_plan = ('refuse', 0.0)
   net.on_connect_start = on_connect_start
+  orig_on_frame = peer.on_frame
+
+  def on_frame(conn, frame):
+    if conn.user.get('silent'):
+      return
+    orig_on_frame(conn, frame)
+  peer.on_frame = on_frame
 
   rparams = dict(initial_wait_interval=script['initial'], max_wait_interval=script['max'], backoff_exponent=script['exp'])
   if kind == 'thrift':
@@ -502,7 +557,26 @@ def run_case_multi(script):
     b = b.ReplaceSink(ApertureBalancerSink.Builder, HeapBalancerSink.Builder())
   else:
     b = b.ReplaceSink(ApertureBalancerSink.Builder, ApertureBalancerSink.Builder(min_size=n, jitter_min_sec=0, jitter_max_sec=0))
-  b = b.SetUri('tcp://' + ','.join('%s:9090' % h for h in hosts)).SetTimeout(10).SetOpenTimeout(0)
+  from scales.loadbalancer.serverset import ServerSetProvider
+  from scales.loadbalancer.zookeeper import Endpoint as ZkEndpoint
+  from scales.core import ScalesUriParser
+
+  class DynProvider(ServerSetProvider):
+    """A server set whose members can leave (and join) while the client runs."""
+    def __init__(self):
+      self.members = list(hosts)
+      self.on_join = self.on_leave = None
+
+    def Initialize(self, on_join, on_leave):
+      self.on_join, self.on_leave = on_join, on_leave
+
+    def Close(self):
+      pass
+
+    def GetServers(self):
+      return [ScalesUriParser.Server(ZkEndpoint(h_, 9090)) for h_ in self.members]
+  provider = DynProvider()
+  b = b.SetServerSetProvider(provider).SetTimeout(10).SetOpenTimeout(0)
   client = b.Build()
 
   def on_net(e):
@@ -510,6 +584,8 @@ def run_case_multi(script):
     c = e['conn']
     if net.conns[c].addr is None or net.conns[c].addr[0] != fhost:
       return
+    if env.get('left') and not env['closed']:
+      return      # the focus endpoint has left the server set: only "quiet after close" is asserted for it from here on
     if k == 'connect':
       env['attempt_open'][c] = True
       ev.append({'e': 'Attempt', 't': ms()})
@@ -552,6 +628,11 @@ def run_case_multi(script):
     k = op[0]
     if k == 'reach':
       up, h = bool(op[1]), hosts[op[2]]
+      if len(op) > 4 and op[4] and not up:
+        # calls are in flight (written, not yet answered) on the endpoint's connections when it dies
+        for _ in range(op[4]):
+          burst()
+        loop.run_for(0.004)
       if up != env['up'][h]:
         env['up'][h] = up
         if h == fhost:
@@ -559,9 +640,23 @@ def run_case_multi(script):
           if up:
             env['last_up_at'] = ms()
         if not up:
+          first = True
           for c in net.conns:
             if c.addr is not None and c.addr[0] == h and c.connected and not c.closed:
-              c.feed_error()
+              if len(op) > 3 and op[3] == 'uneven' and not first:
+                c.user['silent'] = True      # dies unevenly: one connection is reset, the others just go silent
+              else:
+                c.feed_error()
+              first = False
+        loop.run_until_idle()
+    elif k == 'leave':
+      h = hosts[op[1]]
+      if h in provider.members:
+        provider.members.remove(h)
+        if h == fhost:
+          env['left'] = True
+        if provider.on_leave:
+          gevent.spawn(provider.on_leave, ScalesUriParser.Server(ZkEndpoint(h, 9090)))
         loop.run_until_idle()
     elif k == 'traffic':
       dur, spacing = op[1], op[2]
@@ -575,7 +670,7 @@ def run_case_multi(script):
       loop.run_for(op[1] / 1000.0)
       quiet()
     elif k == 'recover':
-      if env['closed'] or not env['up'][fhost]:
+      if env['closed'] or not env['up'][fhost] or env.get('left'):
         continue
       spacing = op[1]
       tau = env['last_up_at']
